@@ -262,7 +262,7 @@ def main(repo, outdir):
             if ast.unparse(v) != f"common.named_vector('{cls}', {al})":
                 fail(v, f"container {cls}")
         cv = [n for n in ast.walk(init) if isinstance(n, ast.Assign) and path_of(n.targets[0]) == "self.calibration_vector"]
-        if ast.unparse(cv[-1].value) != "np.array([[calibration_map[k] for k in self.arglist_calibration]]).transpose()":
+        if ast.unparse(cv[-1].value) != "np.array([[calibration_map[k] for k in self.arglist_calibration]], dtype=float).transpose()":
             fail(cv[-1], "calibration vector construction")
         bb = find_assign(init, "self._impl")
         if ast.unparse(bb) != "BasicBlock(arglist=self.arglist, statements=[symbolic_model.state_model[a] for a in self.arglist_state], config=config)":
@@ -293,7 +293,7 @@ def main(repo, outdir):
             fail(bb, "SensorModel BasicBlock construction")
         if ast.unparse(find_assign(sinit, "self.Reading")) != "common.named_vector('Reading', self.readings)":
             raise Untranslatable("SensorModel.Reading container changed")
-        if ast.unparse(find_assign(sinit, "self.calibration_vector")) != "np.array([[calibration_map[k] for k in self.arglist_calibration]]).transpose()":
+        if ast.unparse(find_assign(sinit, "self.calibration_vector")) != "np.array([[calibration_map[k] for k in self.arglist_calibration]], dtype=float).transpose()":
             raise Untranslatable("SensorModel.calibration_vector changed")
         smod = get_source_func(path, "SensorModel.model")
         ex_calls = find_calls(smod, "self._impl.execute")
